@@ -10,15 +10,22 @@
 //	          injective over the whole registry; ChunkFromSave (and save.Chunk.Data/Load) must
 //	          give every state id back at every position; ToStateID[StateList[id]] == id.
 //	chunk     the cross product sections {1,2,24} x block-palette shape (single/<=16/17-256/>=257,
-//	          boundary sizes of each) x biome shape (single/2-8/>=9) x height maps {zero,max,a
-//	          distinct pattern per map} x block entities {0,1,2; empty/nested NBT} x light
-//	          {absent,present,mixed} x status; each chunk is built by SetBlock histories, then
-//	          WriteTo -> ReadFrom into {fresh, previously used} chunks of the same section count from
-//	          {bytes.Reader, plain io.Reader}, and ChunkToSave -> ChunkFromSave with YPos {0,-4}
-//	          directly and through save.Chunk.Data/Load with compression {none, gzip, zlib}.
+//	          two or three boundary sizes of each: 9 shapes) x biome shape (single/2-8/>=9: 6 shapes)
+//	          x height maps {zero,max,a distinct pattern per map} x block entities {0,1,2; empty /
+//	          nested / absent NBT} x light {absent,present,mixed} x status (quick 2, thorough 15
+//	          values); sections of a multi-section chunk rotate through all shapes starting at the
+//	          named one (thorough: also uniform). Each chunk is built by SetBlock histories, then
+//	          WriteTo -> ReadFrom into {fresh chunk from bytes.Reader, fresh from a plain io.Reader,
+//	          previously used chunk} of the same section count, and ChunkToSave -> ChunkFromSave with
+//	          YPos {-4, 0} directly and through save.Chunk.Data/Load with compression {none, gzip,
+//	          zlib}. Sub-variants that would repeat the very same execution are run once: the
+//	          network form does not contain the status (2nd.. status: fresh/bytes.Reader read only);
+//	          ChunkToSave does not look at block entities (other configurations: YPos=-4 direct only,
+//	          unless save.Chunk.BlockEntities comes back non-empty).
 //	counter   ALL SetBlock histories of depth <= 4 (5) over positions {0,1,4095} x states {air,
 //	          cave_air, void_air, stone, a 15-bit id} x start {fresh, after a wire round trip,
-//	          loaded from save as all-stone / all-cave_air} x a wire round trip after every step.
+//	          loaded from save as all-stone / all-cave_air}; a Section wire round trip inserted after
+//	          every step (quick: from the fresh start only; thorough: from every start).
 //
 // Oracles are exactly the clauses of the statement; everything else (returned byte counts,
 // block entities through the save form, nil-vs-empty light arrays, fields level.Chunk does not
@@ -47,7 +54,7 @@ func main() {
 	rep = engine.NewReport("C13")
 	rep.Rule = "registry: every state id x group sizes {1,15,255} (one section per group, distinct = (group size, group)); " +
 		"chunk: full cross product sections x block shape x biome shape x height-map class x block-entity configuration x light class x status " +
-		"(distinct = distinct descriptor; every descriptor builds a different chunk; each runs 4 network reads and 8 save reads); " +
+		"(distinct = distinct descriptor; every descriptor builds a different chunk; each runs 1-3 network reads and 1-5 save reads, see the header of main.go); " +
 		"counter: every SetBlock history up to the depth bound x start x round-trip place (distinct = distinct (start, history, place)). " +
 		"non-trivial = all (every case reaches the conversion / the counter)"
 	initRegistries()
@@ -73,7 +80,11 @@ func main() {
 	if rep.Thorough() {
 		D = 5
 	}
-	counterPart(D, rep.Thorough())
+	ctrDeadline := time.Now().Add(90 * time.Second)
+	if rep.Thorough() {
+		ctrDeadline = time.Now().Add(14*time.Minute - rep.Elapsed())
+	}
+	counterPart(D, rep.Thorough(), ctrDeadline)
 	t3 := time.Now()
 	rep.Extra("seconds_registry_chunk_counter", []float64{t1.Sub(t0).Seconds(), t2.Sub(t1).Seconds(), t3.Sub(t2).Seconds()})
 	rep.Extra("registry_states", nStates)
@@ -166,10 +177,9 @@ func registryPart() {
 
 func chunkCases(thorough bool) []Case {
 	statuses := []string{"empty", "minecraft:full"}
-	bes := []string{"none", "empty", "nested", "empty+nested", "nested+empty"}
+	bes := []string{"none", "empty", "nested", "empty+nested", "nested+empty", "end"}
 	if thorough {
 		statuses = []string{"empty", "structure_starts", "structure_references", "biomes", "noise", "surface", "carvers", "liquid_carvers", "features", "light", "spawn", "heightmaps", "full", "", "minecraft:full"}
-		bes = append(bes, "end")
 	}
 	var cases []Case
 	for _, secs := range []int{1, 2, 24} {
